@@ -240,24 +240,36 @@ Theorem cbc_stream_split : forall (E D : list Z -> list Z) b1 b2 iv,
     (let '(iv1, c1) := cbc_dec_blocks D iv b1 in let '(iv2, c2) := cbc_dec_blocks D iv1 b2 in (iv2, c1 ++ c2)).
 Proof. exact cbc_split_both. Qed.
 
-(* FULL STATEMENT ("multi-call streaming state for ... CTR"): for all a, b:
-     enc(a) followed by enc(b) on one Python_AES_CTR object = enc(a ++ b).
-   It is FALSE of the generated code when the first call ends inside a block: *)
-Theorem ctr_stream_split_refuted :
-  exists O key iv a b, exists r1 r2,
-    ctr_two_calls O key iv a b = Ok r1 /\ ctr_one_call O key iv a b = Ok r2 /\ r1 <> r2.
-Proof. exact ctr_split_refuted_witness. Qed.
+(* "multi-call streaming state for ... CTR", FULL statement: on one Python_AES_CTR object (counter filling the whole
+   block: ctr_init with a 16-byte IV, the objects inside AES-GCM/CCM) enc(a) followed by enc(b) = enc(a ++ b), for ANY
+   split offset, with the (counter, unused key stream) state threaded through the object; any block-cipher oracle.
+   (Before /repo commit de57de0 "fix: Python_AES_CTR must keep unused key stream between calls" this was refuted for
+   every split inside a block: the check carried ctr_stream_split_refuted with a vm_compute witness.) *)
+Theorem ctr_stream_split : forall O key,
+  (forall b, List.length (bo_enc O key b) = 16%nat) -> (forall k b, all_bytes (bo_enc O k b) = true) ->
+  forall iv t0 ks a b, List.length t0 = 16%nat -> all_bytes ks = true -> all_bytes a = true -> all_bytes b = true ->
+  ('(st1, c1) <- ctr_encrypt O (mkAESCTR key iv 0 t0 ks) a ;; '(st2, c2) <- ctr_encrypt O st1 b ;; Ok (st2, c1 ++ c2))
+  = ctr_encrypt O (mkAESCTR key iv 0 t0 ks) (a ++ b).
+Proof. exact ctr_stream_split_code. Qed.
 
-Example ctr_stream_split_aligned_example :
-  ctr_two_calls toy_block_oracle (repeat 1 16) (repeat 2 16) (repeat 7 16) [6; 7; 8; 9; 10; 11; 12]
-  = ctr_one_call toy_block_oracle (repeat 1 16) (repeat 2 16) (repeat 7 16) [6; 7; 8; 9; 10; 11; 12].
-Proof. exact ctr_split_aligned_example. Qed.
+(* assigning the `counter` property drops the unused key stream: AES-GCM and AES-CCM do this for every record, so a
+   record never sees key stream left over from the previous one *)
+Theorem ctr_set_counter_drops_keystream : forall O st c,
+  ctr_set_counter O st c = mkAESCTR (ctr_rijndael st) (ctr_IV st) (ctr__counter_bytes st) c [].
+Proof. exact ctr_set_counter_drops. Qed.
+
+Example ctr_stream_split_example :
+  ctr_two_calls toy_block_oracle [1;2;3;4;5;6;7;8;9;10;11;12;13;14;15;16] [10;20;30;40;50;60;70;80;90;100;110;120;130;140;150;160]
+                [1; 2; 3; 4; 5] [6; 7; 8; 9; 10; 11; 12]
+  = ctr_one_call toy_block_oracle [1;2;3;4;5;6;7;8;9;10;11;12;13;14;15;16] [10;20;30;40;50;60;70;80;90;100;110;120;130;140;150;160]
+                [1; 2; 3; 4; 5] [6; 7; 8; 9; 10; 11; 12].
+Proof. exact ctr_split_unaligned_example. Qed.
 
 (* ---- (f) AES-GCM ------------------------------------------------------------------------- *)
 (* two encryptions from the same counter state give the data back (generated Python_AES_CTR.encrypt, any
    block-cipher oracle that returns bytes): the basis of every AEAD round trip below *)
 Theorem ctr_encrypt_involution : forall O, (forall k b, all_bytes (bo_enc O k b) = true) ->
-  forall st m st1 c, all_bytes m = true -> ctr_encrypt O st m = Ok (st1, c) ->
+  forall st m st1 c, all_bytes (ctr__keystream st) = true -> all_bytes m = true -> ctr_encrypt O st m = Ok (st1, c) ->
   ctr_encrypt O st c = Ok (st1, m) /\ zlen c = zlen m /\ all_bytes c = true.
 Proof. exact ctr_involution. Qed.
 
@@ -288,9 +300,11 @@ Proof. exact cbc_bad_length. Qed.
    AES-GCM and AES-CCM use it, and ctr_init with a 16-byte IV) = SP 800-38A 6.5 CTR with the standard incrementing
    function; the object keeps the next counter block.  (Objects created with a shorter IV additionally raise OverflowError
    when the counter part becomes all ones: not covered.) *)
-Theorem ctr_eq_spec : forall O key iv t0 m,
+Theorem ctr_eq_spec : forall O key,
   (forall b, List.length (bo_enc O key b) = 16%nat) -> (forall k b, all_bytes (bo_enc O k b) = true) ->
-  List.length t0 = 16%nat -> all_bytes m = true ->
-  ctr_encrypt O (mkAESCTR key iv 0 t0) m =
-  Ok (mkAESCTR key iv 0 (Nat.iter (Z.to_nat ((zlen m + 15) / 16)) ctr_inc t0), ctr_crypt_spec (bo_enc O key) 16 t0 m).
+  forall iv t0 m, List.length t0 = 16%nat -> all_bytes m = true ->
+  ctr_encrypt O (mkAESCTR key iv 0 t0 []) m =
+  Ok (mkAESCTR key iv 0 (Nat.iter (Z.to_nat ((zlen m + 15) / 16)) ctr_inc t0)
+               (skipn (List.length m) (ctr_blocks (bo_enc O key) t0 (Z.to_nat ((zlen m + 15) / 16)))),
+      ctr_crypt_spec (bo_enc O key) 16 t0 m).
 Proof. exact ctr_encrypt_ok. Qed.
